@@ -369,6 +369,15 @@ def build_cv(env, ce, hyps):
         for p in pts:
             hyps.update(p.hyps)
         return C.rewr_conv(ce[1], sym=ce[2], conds=pts)
+    if k == "rewrh":        # ["rewrh", name | ["pt", eq, [hyp..]], sym, [[prop, [hyp..]] ..]]: conditions `hyps |- prop`
+        pts = [env.ProofTerm.sorry(env.Thm(jt(env, c[0]), *[jt(env, h) for h in c[1]])) for c in ce[3]]
+        for p in pts:
+            hyps.update(p.hyps)
+        rule = ce[1]
+        if not isinstance(rule, str):
+            rule = env.ProofTerm.sorry(env.Thm(jt(env, rule[1]), *[jt(env, h) for h in rule[2]]))
+            hyps.update(rule.hyps)
+        return C.rewr_conv(rule, sym=ce[2], conds=pts)
     if k == "replace":
         eq = env.term.Eq(jt(env, ce[1]), jt(env, ce[2]))
         if ce[3] == "assume":
@@ -1708,6 +1717,193 @@ def stage_corr_conv(ctx, env):
                 judge(env, ctx, "logic.conv.%s" % ce[0], model_ce_to_impl(ce), t)
 
 
+# ---------------------------------------------------------------------- combinators with hypotheses
+COND_RULES = ["min_simp1", "sub_add", "Suc_Pre", "div_refl", "mod_lt", "div_lt", "nat_le_zero"]
+
+
+def rule_parts(env, rule, sym):
+    """(hyps, As, lhs, rhs) of the rewrite theorem of a "rewrh" leaf."""
+    if isinstance(rule, str):
+        th = env.theory.get_theorem(rule)
+    else:
+        th = env.Thm(jt(env, rule[1]), *[jt(env, h) for h in rule[2]])
+    As, Cc = th.prop.strip_implies()
+    l, r = Cc.lhs, Cc.rhs
+    if sym:
+        l, r = r, l
+    return list(th.hyps), As, l, r
+
+
+def ceh_to_sexp(env, codec, ce):
+    k = ce[0]
+    if k == "rewrh":
+        hs, As, l, r = rule_parts(env, ce[1], ce[2])
+        pv = {}
+        asms = [codec.pat(a, pv) for a in As]
+        return ["rewrc", [codec.enc(h) for h in hs], asms, codec.pat(l, pv), codec.pat(r, pv),
+                [[[codec.enc(jt(env, h)) for h in c[1]], codec.enc(jt(env, c[0]))] for c in ce[3]]]
+    if k in ("all", "no"):
+        return k
+    return [{"top_sweep": "topsweep"}.get(k, k)] + [ceh_to_sexp(env, codec, c) for c in ce[1:]]
+
+
+def gen_cond_leaf(env, rng, g, scope):
+    """A conditional rewrite with its conditions, and an instance of its left side: mostly the
+    conditions fit the instance; near misses (swapped / other arguments, wrong number of conditions)
+    and conditions that carry hypotheses of their own (possibly about the bound variables)."""
+    T = env.term
+    r = rng.random()
+    a, b = g.N(rng.randint(0, 1), scope), g.N(rng.randint(0, 1), scope)
+
+    def extra():
+        pool = [env.nat.less_eq(env.v["k"], env.v["m"]), env.v["A"], env.v["P"](env.v["n"]), T.Eq(a, b)]
+        pool += [env.nat.less_eq(u, env.v["k"]) for u in scope] + [env.v["P"](u) for u in scope]
+        if scope:
+            pool.append(T.Forall(scope[0], env.v["P"](scope[0])))        # bound: not an occurrence
+        return [tj(h) for h in rng.sample(pool, rng.choice([0, 0, 1, 1, 2]))]
+
+    if r < 0.12:        # a supplied equation with hypotheses of its own as the rule
+        eq = T.Eq(a, b)
+        return ["rewrh", ["pt", tj(eq), extra()], rng.random() < 0.3, []], a
+    if r < 0.22:        # unconditional theorem
+        nm, sym = rng.choice(MODEL_RULES[:4] + MODEL_RULES[5:8])
+        th = env.theory.get_theorem(nm)
+        return ["rewrh", nm, sym, []], None
+    nm = rng.choice(COND_RULES)
+    th = env.theory.get_theorem(nm)
+    As, Cc = th.prop.strip_implies()
+    svs = T.get_svars(As + [Cc]) if hasattr(T, "get_svars") else []
+    inst = {}
+    for sv in svs:
+        inst[sv.name] = rng.choice([a, b, g.N(0, scope)])
+    from kernel.term import Inst
+    ii = Inst(**inst)
+    conds = [[tj(A.subst(ii)), extra() if rng.random() < 0.6 else []] for A in As]
+    lhs = Cc.lhs.subst(ii)
+    q = rng.random()
+    if q < 0.12 and conds:          # near miss: the condition is about other arguments
+        inst2 = dict(inst)
+        k0 = rng.choice(sorted(inst2))
+        inst2[k0] = g.N(1, scope)
+        conds[0][0] = tj(As[0].subst(Inst(**inst2)))
+    elif q < 0.17:
+        conds = conds[:-1]          # wrong number of conditions
+    elif q < 0.22:
+        conds = conds + [[tj(env.v["A"]), []]]
+    return ["rewrh", nm, False, conds], lhs
+
+
+def gen_ceh(env, rng, g, depth, leaves, scope, noloop=False):
+    unary = ["abs", "try", "comb1", "arg", "fun", "arg1", "binop", "repeat", "sub", "bottom", "topsweep"]
+    if depth <= 0 or rng.random() < 0.35:
+        r = rng.random()
+        if r < 0.06:
+            return ["all"]
+        if r < 0.1:
+            return ["no"]
+        leaf, inst = gen_cond_leaf(env, rng, g, scope)
+        if inst is not None:
+            leaves.append(inst)
+        r = rng.random()
+        return leaf if r < 0.3 else ["try", leaf] if r < 0.6 else ["topsweep", leaf] if r < 0.8 else ["bottom", leaf]
+    k = rng.choice(unary + ["comb", "then", "else", "every", "top", "top", "abs"])
+    sub = lambda: gen_ceh(env, rng, g, depth - 1, leaves, scope, noloop=noloop or k in ("repeat", "top", "bottom"))  # noqa
+    if k in unary:
+        return [k, sub()]
+    if k in ("comb", "then", "else"):
+        return [k, sub(), sub()]
+    return [k] + [sub() for _ in range(rng.randint(0 if k == "every" else 1, 3))]
+
+
+def ceh_to_impl(ce):
+    k = ce[0]
+    if k in ("rewrh", "all", "no"):
+        return ce
+    return [{"topsweep": "top_sweep"}.get(k, k)] + [ceh_to_impl(c) for c in ce[1:]]
+
+
+def stage_corr_convh(ctx, env):
+    """The combinators over CONDITIONAL rewrite rules against `interpH` (HypModel.lean): the whole
+    sequent -- set of hypotheses, left side, right side -- or the error class; and the property
+    (left side is the input, hypotheses among the supplied ones, proof accepted) on every result."""
+    rng = ctx.rng("corr/convh")
+    n = ctx.scale(220, 6000)
+    T = env.term
+    cases, lines = [], []
+    for _ in range(n):
+        g = BGen(env, rng)
+        scope = tuple(rng.choice([env.v["m"], env.v["n"], g.bvar()]) for _ in range(rng.choice([0, 1, 1, 2])))
+        leaves = []
+        ce = gen_ceh(env, rng, g, rng.randint(0, 3), leaves, scope)
+        # a term containing the instances, under the binders of `scope`
+        parts = leaves[:3] + [g.N(rng.randint(0, 2), scope) for _ in range(rng.choice([0, 1, 1, 2]))]
+        rng.shuffle(parts)
+        t = None
+        for pz in parts:
+            if pz.get_type() != env.T["nat"]:
+                continue
+            w = rng.choice([pz, env.v["f"](pz), env.nat.Suc(pz)])
+            t = w if t is None else rng.choice([t + w, env.v["g"](t, w), w * t])
+        if t is None:
+            t = g.N(2, scope)
+        for u in reversed(scope):
+            r = rng.random()
+            if r < 0.5:
+                t = T.Lambda(u, t)
+            elif r < 0.7:
+                t = T.Lambda(u, t)(g.N(1)) if t.get_type() == env.T["nat"] else T.Lambda(u, t)
+            if rng.random() < 0.3 and t.get_type() == env.T["nat"]:
+                t = env.v["f"](t)
+        codec = TermCodec(env)
+        try:
+            line = sexp.dumps(["convh", 400, ceh_to_sexp(env, codec, ce), codec.enc(t)])
+        except ValueError:
+            continue
+        hyps = set()
+        try:
+            cv = build_cv(env, ceh_to_impl(ce), hyps)
+            with time_limit(20):
+                pt = cv.get_proof_term(t)
+            impl = ("ok", frozenset(pt.hyps), pt.prop.lhs, pt.prop.rhs)
+        except Timeout:
+            continue
+        except RecursionError:
+            continue
+        except Exception as e:  # noqa
+            impl = ("err", ERRMAP.get(type(e).__name__, type(e).__name__))
+        cases.append((ce, t, impl, codec, hyps))
+        lines.append(line)
+    out = ctx.lean_driver(EXE, lines) if lines else []
+    if out is None:
+        ctx.broken("correspondence:c10:driver", "model driver unavailable")
+        return
+    nd = 0
+    for (ce, t, impl, codec, hyps), m in zip(cases, out):
+        ms = sexp.loads(m)
+        if ms == "bad-op":
+            model = ("bad-op",)
+        elif ms[0] == "ok":
+            model = ("ok", frozenset(codec.dec(h) for h in ms[1]), codec.dec(ms[2]), codec.dec(ms[3]))
+        else:
+            model = ("err", ms[1])
+        nontriv = impl[0] == "ok" and impl[2] != impl[3]
+        ctx.case(("convh-corr", json.dumps(ce), str(tj(t))), nontrivial=nontriv)
+        agree = impl == model
+        ctx.count("corr:convh:%s:%s" % (ce[0], "agree" if agree else "DISAGREE"))
+        ctx.count("corr:convh:outcome:%s" % ((("ok-with-hyps" if impl[1] else "ok-changed") if nontriv else "ok-refl") if impl[0] == "ok" else "err-" + impl[1]))
+        # the property on the implementation's own result
+        if impl[0] == "ok" and (nontriv or impl[1]):
+            judge(env, ctx, "logic.conv.%s" % ceh_to_impl(ce)[0], ceh_to_impl(ce), t)
+        if not agree:
+            nd += 1
+            if nd <= 3:
+                ctx.broken("correspondence:c10:convh", "%s on %s: impl=%s model=%s" % (
+                    json.dumps(ce), t, [str(x) if not isinstance(x, frozenset) else sorted(map(str, x)) for x in impl],
+                    [str(x) if not isinstance(x, frozenset) else sorted(map(str, x)) for x in model]))
+                ctx.coverage["disagreements_checked"] += 1
+                judge(env, ctx, "logic.conv.%s" % ceh_to_impl(ce)[0], ceh_to_impl(ce), t)
+
+
 # ====================================================================== independent polynomial evaluator
 class Poly:
     """Exact-rational multivariate polynomials, written for this harness only (nothing of util/poly.py
@@ -2796,16 +2992,18 @@ def run(ctx):
         "schematic), nested binders with equal names, a rule's left side under the binder; for abs/top/bottom/top_sweep/sub/"
         "beta_norm conversions, sort_conj/sort_disj and int_norm_conv; judged by the oracle and (combinators) by the Lean model, whose "
         "codec opens binders with names of its own.")
-    ok = ctx.lean_props(["Holpy.C10.Props", "Holpy.C10.PropsPoly", "Holpy.C10.PropsPolySem", "Holpy.C10.PropsNatPoly", "Holpy.C10.PropsInt"], exes=[EXE])
+    ok = ctx.lean_props(["Holpy.C10.Props", "Holpy.C10.PropsPoly", "Holpy.C10.PropsPolySem", "Holpy.C10.PropsNatPoly", "Holpy.C10.PropsInt", "Holpy.C10.PropsHyp"], exes=[EXE])
     if ctx.tier == "thorough" and ok:
-        ctx.lean_check_modules(["Holpy.C10.Props", "Holpy.C10.PropsPoly", "Holpy.C10.PropsPolySem", "Holpy.C10.PropsNatPoly", "Holpy.C10.PropsInt"])
+        ctx.lean_check_modules(["Holpy.C10.Props", "Holpy.C10.PropsPoly", "Holpy.C10.PropsPolySem", "Holpy.C10.PropsNatPoly", "Holpy.C10.PropsInt", "Holpy.C10.PropsHyp"])
     ctx.coverage["trusted_base"] += [
         "harness/props/c10.py: generators, term codec, ranking of members/atoms by the implementation's own term_ord.fast_compare",
         "kernel.theory.check_proof is the judge of 'checker-accepted' (check_level=0: every macro with an expansion is expanded)",
         "level-0 macros (nat_eval, int_eval, real_eval, real_norm, int_const_ineq, real_const_eq ...) are trusted by the checker (C05)"]
     ctx.assumptions += [
         "the atom/member order handed to the model is a strict total order (C03 cmp_total); the model takes it as Nat order on ranks",
-        "hypotheses of conversions are judged on the implementation only (the model's equations carry no hypotheses)",
+        "hypotheses: the model HypModel.lean tracks them through the combinators and conditional rewr_conv (first-order, "
+        "monomorphic rules; rule hypotheses without schematic variables); for every other Conv class they are judged on the "
+        "implementation only",
         "nat subtraction, nat powers and function applications are opaque atoms of the nat normaliser; real powers with "
         "non-natural exponents are outside the canonicity check"]
     env = Env(ctx)
@@ -2822,6 +3020,7 @@ def run(ctx):
     ctx.log("histories done")
     stage_corr_acnorm(ctx, env)
     stage_corr_conv(ctx, env)
+    stage_corr_convh(ctx, env)
     stage_corr_poly(ctx, env)
     stage_corr_int(ctx, env)
     stage_corr_bodycmp(ctx, env)
